@@ -276,7 +276,9 @@ def build_config(world, test_mode, on_error, queue_size, downsample, cores, host
     import datetime
 
     cfg.add(S, "system", "time.start", datetime.datetime(2026, 1, 1))
-    cfg.add(S, "system", "quiet.mode", True)
+    # half of the races run with progress reporting on (Driver.update_progress_message does its look-ups only then; nothing is
+    # printed: stdout is no terminal)
+    cfg.add(S, "system", "quiet.mode", bool(getattr(world, "quiet", True)))
     cfg.add(S, "system", "available.cores", cores)
     cfg.add(S, "node", "root.dir", os.path.join(home, "root"))
     cfg.add(S, "node", "rally.root", os.path.join(os.environ.get("VERIF_REPO", "/repo"), "esrally"))
@@ -450,6 +452,7 @@ class RaceWorld:
         W = scn["W"]
         hosts = hosts or ["localhost"]
         cores = cores or W
+        self.quiet = seed % 2 == 0
         self.cfg = build_config(self, test_mode, on_error, queue_size, downsample, cores, hosts)
         self.lenient = set(lenient)
         self.track, self.tasks_by_id = build_track(scn, self.lenient)
@@ -662,6 +665,8 @@ class RaceWorld:
             exc = elasticsearch.BadRequestError("verif bad request", meta, {"error": "verif"})
         elif kind == "conn_error":  # fatal regardless of on-error
             exc = elasticsearch.ConnectionError("verif connection refused")
+        elif kind == "conn_error_retried":  # ... also when the transport had retried: the earlier attempts' errors are attached
+            exc = elasticsearch.ConnectionError("verif connection refused", errors=(elasticsearch.ConnectionError("verif first attempt refused"), elasticsearch.ConnectionTimeout("verif second attempt timed out")))
         else:  # the runner itself raises
             exc = RuntimeError("verif runner failure")
         req = self.pending.pop(c)
